@@ -352,7 +352,7 @@ def optFill (len fill : Nat) : List Nat := (List.range len).map (fun k => (fill 
 /-- One operation.  `none` = the operation is outside `WellFormedProgram` in this state (the harness refuses it with
     the same guard, so the real objects are never driven into documented-undefined use). -/
 def step (s : State) : Op → Option State
-  | .init n => some { heap := destroySlots s.slots s.heap, slots := List.replicate n none, opts := List.replicate n none }
+  | .init n => some { heap := {}, slots := List.replicate n none, opts := List.replicate n none }   -- a new world
   | .fin => some { s with heap := destroySlots s.slots s.heap, slots := s.slots.map (fun _ => none),
                           opts := s.opts.map (fun _ => none) }
   | .new i cls kind val =>
